@@ -899,7 +899,9 @@ def unify_chunks_expr(*args, warn=True):
         if worst > limit:
             if fine is None:
                 fine = broadcast_dimensions(nameinds, blockdim_dict, consolidate=common_blockdim)
-            coarsened = {j for j, c in chunkss.items() if len(fine[j]) > len(c)}
+            # (zero-width chunks carry nothing: counting them would hide a
+            # merge behind an equal number of chunks)
+            coarsened = {j for j, c in chunkss.items() if sum(1 for w in fine[j] if w) > sum(1 for w in c if w)}
             if coarsened:
                 if warn:
                     warnings.warn(
